@@ -1631,7 +1631,7 @@ def protocol_steps(A: Analysis, fn: FuncInfo, depth: int = 2) -> list[str]:
 @prop(
     "C17",
     technique="sibling agreement: ordered protocol-step extraction (resolved callees, helper inlining bound 2) from the sync/async run functions and the sync/async workflow expanders",
-    decides="the two run functions perform the same result-affecting protocol steps in the same order (lock name, hit test, populate, Result state, hooks, task body, outputs, error marking, record, save, restore, hash check), and the two workflow expanders agree on construct -> execution_graph -> return_values -> get_runnable_tasks -> loop condition -> rerun expression; the worker's run() forwards to the job's run function with the same rerun value.",
+    decides="the two run functions perform the same result-affecting protocol steps in the same order (lock name, hit test, populate, Result state, hooks, task body, outputs, error marking, record, save, restore, hash check), and the two workflow expanders agree on construct -> execution_graph -> return_values -> get_runnable_tasks -> loop condition -> rerun expression; the worker's run() forwards to the job's run function with the same rerun value; the scheduler's done/errored decision for a queued job is not taken from the cache alone (known findings: it is).",
     not_decided="equality of outputs across workers and schedules (behavioural; the premise is task determinism).",
     level_note="Audited exceptions: os.chdir(cache_dir) and audit_task only in the sync run function; `self._errored = True` only in run_async (each listed in rules/runfn.py with its reason).",
 )
@@ -1759,6 +1759,42 @@ def check_c17(A: Analysis, col: Collector):
             col.fail("C17.workers", r.qualname, "rerun-forwarding:" + ",".join(sorted(set(reruns))), f"the worker forwards rerun as {sorted(set(reruns))}", A.loc(r.node))
     if n < 3:
         raise AnalysisError("C17: fewer than 3 worker run() implementations found")
+    status_source_rule(A, col, "C17.status")
+
+
+def status_source_rule(A: Analysis, col: Collector, rule: str):
+    """where the scheduler learns that a job has finished.
+
+    The sequential expander runs every offered job to completion before it reads any status, so what it
+    finds in the cache afterwards was written by this run. The asynchronous expander reads statuses while
+    jobs are still waiting in the pool; NodeExecution.update_status decides `done` / `errored` of a queued
+    job from the cache alone (Job.done -> load_result). Whenever the cache can hold a result for the job's
+    checksum that pre-dates its execution in this submission -- rerun=True, or an errored result that
+    Job.run is about to re-execute -- that status is the previous run's, and the two workers disagree.
+    The decision must therefore be conjoined with evidence from this submission."""
+    us = A.func("pydra.engine.submitter.NodeExecution.update_status")
+    col.scope(us.qualname)
+    loops = [l for l in walk_own(us.node) if isinstance(l, ast.For) and any(isinstance(a, ast.Attribute) and a.attr == "queued" for a in ast.walk(l.iter))]
+    A.anchor("loop over self.queued in NodeExecution.update_status", loops)
+    for lp in loops:
+        # names bound from `<job>.done` (directly or in try/else)
+        done_vars = {t.id for n in ast.walk(lp) if isinstance(n, ast.Assign) and isinstance(n.value, ast.Attribute) and n.value.attr == "done" for t in n.targets if isinstance(t, ast.Name)}
+        moves = []
+        for n in ast.walk(lp):
+            if isinstance(n, ast.If):
+                for a in n.body:
+                    for asg in ast.walk(a):
+                        if isinstance(asg, ast.Assign) and any(isinstance(t, ast.Subscript) and isinstance(t.value, ast.Attribute) and t.value.attr in ("successful", "errored") for t in asg.targets):
+                            dest = next(t.value.attr for t in asg.targets if isinstance(t, ast.Subscript) and isinstance(t.value, ast.Attribute))
+                            moves.append((dest, n.test, asg))
+        A.anchor("queued -> successful/errored moves in update_status", moves)
+        for dest, test, asg in moves:
+            operands = test.values if isinstance(test, ast.BoolOp) and isinstance(test.op, ast.And) else [test]
+            cache_only = all((isinstance(o, ast.Name) and o.id in done_vars) or (isinstance(o, ast.Attribute) and o.attr in ("done", "errored")) or (isinstance(o, ast.BoolOp) and isinstance(o.op, ast.Or) and all((isinstance(v, ast.Attribute) and v.attr in ("done", "errored")) or isinstance(v, ast.Name) for v in o.values)) for o in operands)
+            if cache_only:
+                col.fail(rule, us.qualname, f"queued-job-{dest}-read-from-cache-without-run-evidence", f"a queued job is moved to `{dest}` on `{norm(test)}` alone, i.e. on what the cache holds for its checksum: under an asynchronous worker a result left by a previous run (rerun=True; an errored result that is being re-executed) is taken for the outcome of this run while the job is still waiting in the pool, so downstream nodes get stale values / the node is reported failed, whereas the sequential worker re-runs the job first -- the workflow's outputs depend on the worker", A.loc(asg))
+            else:
+                col.ok(rule, f"queued -> {dest} is decided on `{norm(test, 60)}` (cache state conjoined with evidence from this submission)", A.loc(asg))
 
 
 # --------------------------------------------------------------------------- #
